@@ -25,6 +25,7 @@ type run struct {
 	s      *world.Sess
 	user   int    // -1 = not authenticated
 	sel    string // selected mailbox ("" = none)
+	ro     bool   // selected read-only (EXAMINE)
 	failed bool   // a LOGIN failed since the last success (informational)
 	broken string
 	keyN   int
@@ -144,6 +145,12 @@ func (r *run) Step(ev explore.Event) []explore.Violation {
 		r.broken = err.Error()
 	}
 	st := r.state()
+	invalidBefore := false
+	if r.user >= 0 && !r.s.Dead {
+		if d, ok := r.w.DumpOf(r.s); ok && d.Invalid {
+			invalidBefore = true // e.g. the selected mailbox was deleted: the server ends the session with BYE
+		}
+	}
 	cmd := ev.A
 	verb := strings.ToUpper(strings.Fields(cmd)[0])
 	var res imapc.Result
@@ -177,7 +184,7 @@ func (r *run) Step(ev explore.Event) []explore.Violation {
 	if res.Err != nil {
 		if r.s.C.Closed {
 			r.s.Dead = true
-			if verb != "LOGOUT" {
+			if verb != "LOGOUT" && !invalidBefore {
 				out = append(out, r.viol("connection-closed", verb, fmt.Sprintf("%s in state %s closed the connection", cmd, st)))
 			}
 		} else {
@@ -267,6 +274,7 @@ func (r *run) Step(ev explore.Event) []explore.Violation {
 			}
 		case "SELECT", "EXAMINE":
 			r.sel = f[1]
+			r.ro = verb == "EXAMINE"
 		case "CLOSE", "UNSELECT":
 			r.sel = ""
 		case "DELETE":
@@ -291,7 +299,11 @@ func (r *run) Step(ev explore.Event) []explore.Violation {
 	if !r.s.Dead && r.user >= 0 {
 		if d, ok := r.w.DumpOf(r.s); ok {
 			if d.Selected != (r.sel != "") && !d.Invalid {
-				r.broken = fmt.Sprintf("state tracking: harness sel=%q server selected=%v after %s", r.sel, d.Selected, cmd)
+				if (verb == "CLOSE" || verb == "UNSELECT") && res.OK() && d.Selected {
+					out = append(out, r.viol("selection-survives", verb, fmt.Sprintf("%s was answered %q but the session still has a mailbox selected (selected-state commands are not refused afterwards)", cmd, res.Tagged.Text)))
+				} else {
+					r.broken = fmt.Sprintf("state tracking: harness sel=%q server selected=%v after %s", r.sel, d.Selected, cmd)
+				}
 			}
 		}
 	}
@@ -303,7 +315,13 @@ func (r *run) Step(ev explore.Event) []explore.Violation {
 
 func (r *run) Canon() string {
 	a, b, _ := r.worlds()
-	return fmt.Sprintf("user=%d sel=%s dead=%v | %s | %s", r.user, r.sel, r.s.Dead, a, b)
+	srv := "-"
+	if !r.s.Dead && r.user >= 0 {
+		if d, ok := r.w.DumpOf(r.s); ok {
+			srv = fmt.Sprintf("selected=%v ro=%v invalid=%v n=%d", d.Selected, d.ReadOnly, d.Invalid, len(d.Msgs))
+		}
+	}
+	return fmt.Sprintf("user=%d sel=%s ro=%v dead=%v server[%s] | %s | %s", r.user, r.sel, r.ro, r.s.Dead, srv, a, b)
 }
 
 func (r *run) Extensions() []explore.Violation { return nil }
